@@ -139,24 +139,28 @@ TypeWellFormed(p) == /\ (p.type \in NeedsNs => NsTab[p.nsC].canon # "")
                      /\ (p.type \in NeedsVersion => VerTab[p.verC] # "")
                      /\ (p.type = "conan" => p.nsC = "none")  \* conan: a namespace needs a channel qualifier; not explored
 
-\* packages that deviate from the plain package in exactly one more dimension
-Dev1(p) ==
-  (IF p.type = Plain.type THEN {[p EXCEPT !.type = t] : t \in Types \ {Plain.type}} ELSE {})
-  \cup (IF p.nameC = "plain" THEN {[p EXCEPT !.nameC = x] : x \in NameCs \ {"plain"}} ELSE {})
-  \cup (IF p.verC = "plain" THEN {[p EXCEPT !.verC = x] : x \in VerCs \ {"plain"}} ELSE {})
-  \cup (IF p.nsC = "none" THEN {[p EXCEPT !.nsC = x] : x \in NsCs \ {"none"}} ELSE {})
-  \cup (IF p.qualC = "none" THEN {[p EXCEPT !.qualC = x] : x \in QualCs \ {"none"}} ELSE {})
-  \cup (IF p.subC = "none" THEN {[p EXCEPT !.subC = x] : x \in SubCs \ {"none"}} ELSE {})
-  \cup (IF Mode = "pkg" /\ p.nloc = 1 THEN {[p EXCEPT !.nloc = 2]} ELSE {})
-  \cup (IF Mode = "pkg" /\ ~p.layer THEN {[p EXCEPT !.layer = TRUE]} ELSE {})
-RECURSIVE Grow(_, _)
-Grow(S, k) == IF k = 0 THEN S ELSE Grow(S \cup UNION {Dev1(p) : p \in S}, k - 1)
-\* every package within MaxDev deviations of the plain package whose package URL is one of its type
-\* (a type that needs a namespace gets one: its "plain" representative is the package with nsC = "plain")
+\* The package space: every package within MaxDev deviations of the plain package. It is built by actions
+\* (Deviate, one dimension at a time, in increasing dimension order so that every package is reached once).
+\* dimensions: 1 type, 2 name, 3 version, 4 namespace, 5 qualifiers, 6 sub-path, 7 second location, 8 layer details
+DimVals(i) == CASE i = 1 -> Types \ {Plain.type}
+                [] i = 2 -> NameCs \ {"plain"}
+                [] i = 3 -> VerCs \ {"plain"}
+                [] i = 4 -> NsCs \ {"none"}
+                [] i = 5 -> QualCs \ {"none"}
+                [] i = 6 -> SubCs \ {"none"}
+                [] i = 7 -> IF Mode = "pkg" THEN {2} ELSE {}
+                [] i = 8 -> IF Mode = "pkg" THEN {TRUE} ELSE {}
+SetDim(p, i, x) == CASE i = 1 -> [p EXCEPT !.type = x]
+                     [] i = 2 -> [p EXCEPT !.nameC = x]
+                     [] i = 3 -> [p EXCEPT !.verC = x]
+                     [] i = 4 -> [p EXCEPT !.nsC = x]
+                     [] i = 5 -> [p EXCEPT !.qualC = x]
+                     [] i = 6 -> [p EXCEPT !.subC = x]
+                     [] i = 7 -> [p EXCEPT !.nloc = x]
+                     [] i = 8 -> [p EXCEPT !.layer = x]
+\* a type that needs a namespace gets one: its "plain" representative is the package with nsC = "plain"
 Fix(p) == IF p.type \in NeedsNs /\ p.nsC = "none" THEN [p EXCEPT !.nsC = "plain"] ELSE p
-PurlPkgs == {q \in {Fix(p) : p \in Grow({Plain}, MaxDev)} : TypeWellFormed(q)}
-NoPurlPkgs == {[Plain EXCEPT !.kind = k] : k \in NoPurlKinds}
-Alphabet == PurlPkgs \cup (IF Mode = "inv" THEN NoPurlPkgs ELSE {})
+NoPurl(k) == [Plain EXCEPT !.kind = k]
 
 \* the package URL a package carries (concrete representative strings)
 Purl(p) == [type |-> p.type, ns |-> NsTab[p.nsC].raw, name |-> NameTab[p.nameC].raw, version |-> VerTab[p.verC],
@@ -206,38 +210,61 @@ BagOfSeq(s) == IF s = <<>> THEN [x \in {} |-> 0]
 ExpectedBack(inventory, f) == LET keep == SelectSeq(inventory, LAMBDA p : Exported(p, f))
                               IN [i \in 1..Len(keep) |-> Norm(keep[i])]
 
-\* C14 over a fact record (the same operator judges the model's own facts and the facts recorded from the code)
-PkgOK(r) ==
-  /\ r.name_nonempty
-  /\ r.has_location
-  /\ Len(r.panics) = 0
-  /\ r.has_purl => /\ r.type_valid /\ r.parse_ok /\ r.idem /\ r.rt_equiv
-                   /\ r.in_specific /\ r.in_alloftype
-  /\ r.proto.name /\ r.proto.version /\ r.proto.locations /\ r.proto.purl /\ r.proto.layer /\ r.proto.layer_alt
-  /\ r.spdx.present = r.spdx.expect_present
-  /\ r.spdx.present => r.spdx.name /\ r.spdx.version /\ r.spdx.purl /\ r.spdx.locations
-  /\ r.cdx.present /\ r.cdx.name /\ r.cdx.version /\ r.cdx.purl /\ r.cdx.locations
+\* C14 over a fact record: one named clause per conjunct of the property (the same operators judge the model's
+\* own facts and the fact records computed from the real code, ConvertTrace)
+Clauses(r) == [
+  name_nonempty   |-> r.name_nonempty,                                  \* non-empty name
+  has_location    |-> r.has_location,                                   \* at least one location
+  no_panic        |-> Len(r.panics) = 0,                                \* no conversion panics
+  type_valid      |-> r.has_purl => r.type_valid,                       \* the parser accepts the type
+  parse_ok        |-> r.has_purl => r.parse_ok,                         \* ... and the printed URL
+  idempotent      |-> r.has_purl => r.idem,                             \* print-then-parse is idempotent
+  same_identity   |-> r.has_purl => r.rt_equiv,                         \* ... and keeps the URL up to its normal form
+  index_specific  |-> r.has_purl => r.in_specific,                      \* GetSpecific(name, type) returns the package
+  index_type      |-> r.has_purl => r.in_alloftype,                     \* GetAllOfType(type) returns the package
+  proto_name      |-> r.proto.name,
+  proto_version   |-> r.proto.version,
+  proto_locations |-> r.proto.locations,
+  proto_purl      |-> r.proto.purl,
+  proto_layer     |-> r.proto.layer /\ r.proto.layer_alt,
+  spdx_filter     |-> r.spdx.present = r.spdx.expect_present,           \* carried iff URL with name and version
+  spdx_entry      |-> r.spdx.present => (r.spdx.name /\ r.spdx.version /\ r.spdx.purl /\ r.spdx.locations),
+  cdx_entry       |-> r.cdx.present /\ r.cdx.name /\ r.cdx.version /\ r.cdx.purl /\ r.cdx.locations ]
+Failed(r) == {k \in DOMAIN Clauses(r) : ~Clauses(r)[k]}
+PkgOK(r) == Failed(r) = {}
+\* the type table: every type an extractor emitted is a type the parser accepts (reg: the registry dump)
+SeqRange(q) == {q[i] : i \in 1..Len(q)}
+EmittedTypes(reg) == UNION {SeqRange(reg.emitted[ex]) : ex \in DOMAIN reg.emitted}
+ValidTypes(reg) == SeqRange(reg.valid)
+BadTypes(reg) == UNION {{<<ex, t>> : t \in SeqRange(reg.emitted[ex]) \ ValidTypes(reg)} : ex \in DOMAIN reg.emitted}
+TypeTableOK(reg) == EmittedTypes(reg) \subseteq ValidTypes(reg)
 
 -----------------------------------------------------------------------------
 (* ---- operational: the stage machine ---- *)
 None == [none |-> TRUE]
 VARIABLES stage,  \* "pkg": "start","emitted","purl","str1","parsed1","str2","parsed2","indexed","proto","sbom"
                   \* "inv": "build","exported","written","scanned"
-          pkg,    \* "pkg": the package under conversion
+          pkg,    \* the package under construction ("start"/"build"), then "pkg": the package under conversion
+          last,   \* index of the last dimension deviated while constructing pkg
           c,      \* "pkg": what the stages carried so far (record)
           inv,    \* "inv": the inventory (sequence of abstract packages)
           fmt, doc, file, back
-vars == <<stage, pkg, c, inv, fmt, doc, file, back>>
+vars == <<stage, pkg, last, c, inv, fmt, doc, file, back>>
 
 Init == /\ stage = IF Mode = "pkg" THEN "start" ELSE "build"
-        /\ pkg = None /\ c = [x \in {} |-> None] /\ inv = <<>> /\ fmt = "" /\ doc = <<>> /\ file = <<>> /\ back = <<>>
+        /\ pkg = Plain /\ last = 0 /\ c = [x \in {} |-> None] /\ inv = <<>> /\ fmt = "" /\ doc = <<>> /\ file = <<>> /\ back = <<>>
 
 Ext(f, k, v) == [x \in DOMAIN f \cup {k} |-> IF x = k THEN v ELSE f[x]]
 Step(from, to, k, v) == /\ stage = from /\ stage' = to /\ c' = Ext(c, k, v)
-                        /\ UNCHANGED <<pkg, inv, fmt, doc, file, back>>
+                        /\ UNCHANGED <<pkg, last, inv, fmt, doc, file, back>>
 
-Emit(p)      == /\ Mode = "pkg" /\ stage = "start" /\ pkg' = p /\ stage' = "emitted"
-                /\ UNCHANGED <<c, inv, fmt, doc, file, back>>
+Deviate(i, x) == /\ stage \in {"start", "build"} /\ i > last /\ Devs(pkg) < MaxDev
+                 /\ (stage = "build" => Len(inv) < MaxPkgs)
+                 /\ pkg' = SetDim(pkg, i, x) /\ last' = i
+                 /\ UNCHANGED <<stage, c, inv, fmt, doc, file, back>>
+Emit         == /\ Mode = "pkg" /\ stage = "start" /\ TypeWellFormed(Fix(pkg))
+                /\ pkg' = Fix(pkg) /\ stage' = "emitted"
+                /\ UNCHANGED <<last, c, inv, fmt, doc, file, back>>
 ToPURL       == Step("emitted", "purl", "purl", Purl(pkg))
 String1      == Step("purl", "str1", "s1", c.purl)                 \* printing keeps every component
 FromString1  == Step("str1", "parsed1", "p1", Norm(pkg))           \* parsing yields the normal form
@@ -249,8 +276,12 @@ Proto        == Step("indexed", "proto", "proto", [name |-> c.purl.name, version
 SBOM         == Step("proto", "sbom", "sbom", [spdx |-> IF Exported(pkg, "spdx23-json") THEN c.purl ELSE None, cdx |-> c.purl])
 
 \* C15: the inventory is built entry by entry, exported by a loop that skips like the converters do
-AddPkg(p)    == /\ Mode = "inv" /\ stage = "build" /\ Len(inv) < MaxPkgs
-                /\ inv' = Append(inv, p) /\ UNCHANGED <<stage, pkg, c, fmt, doc, file, back>>
+AddPkg       == /\ Mode = "inv" /\ stage = "build" /\ Len(inv) < MaxPkgs /\ TypeWellFormed(Fix(pkg))
+                /\ inv' = Append(inv, Fix(pkg)) /\ pkg' = Plain /\ last' = 0
+                /\ UNCHANGED <<stage, c, fmt, doc, file, back>>
+AddNoPurl(k) == /\ Mode = "inv" /\ stage = "build" /\ Len(inv) < MaxPkgs /\ last = 0
+                /\ inv' = Append(inv, NoPurl(k))
+                /\ UNCHANGED <<stage, pkg, last, c, fmt, doc, file, back>>
 RECURSIVE ExportLoop(_, _, _)
 ExportLoop(rest, f, acc) ==
   IF rest = <<>> THEN acc
@@ -258,19 +289,19 @@ ExportLoop(rest, f, acc) ==
        IF ~HasPurl(p) THEN ExportLoop(Tail(rest), f, acc)                                          \* no package URL: nothing to carry
        ELSE IF IsSpdx(f) /\ (Purl(p).name = "" \/ Purl(p).version = "") THEN ExportLoop(Tail(rest), f, acc)  \* SPDX: skipped
        ELSE ExportLoop(Tail(rest), f, Append(acc, p))        \* one entry carrying Purl(p)
-Export(f)    == /\ Mode = "inv" /\ stage = "build" /\ f \in Formats
+Export(f)    == /\ Mode = "inv" /\ stage = "build" /\ f \in Formats /\ last = 0
                 /\ fmt' = f /\ doc' = ExportLoop(inv, f, <<>>) /\ stage' = "exported"
-                /\ UNCHANGED <<pkg, c, inv, file, back>>
+                /\ UNCHANGED <<pkg, last, c, inv, file, back>>
 WriteFile    == /\ stage = "exported" /\ file' = doc /\ stage' = "written"
-                /\ UNCHANGED <<pkg, c, inv, fmt, doc, back>>
+                /\ UNCHANGED <<pkg, last, c, inv, fmt, doc, back>>
 \* reading an entry's package URL back yields its normal form
 Scan         == /\ stage = "written" /\ back' = [i \in 1..Len(file) |-> Norm(file[i])] /\ stage' = "scanned"
-                /\ UNCHANGED <<pkg, c, inv, fmt, doc, file>>
+                /\ UNCHANGED <<pkg, last, c, inv, fmt, doc, file>>
 
-Next == \/ (Mode = "pkg" /\ stage = "start" /\ \E p \in Alphabet : Emit(p))   \* guards first: the alphabet is large
-        \/ (Mode = "inv" /\ stage = "build" /\ Len(inv) < MaxPkgs /\ \E p \in Alphabet : AddPkg(p))
-        \/ ToPURL \/ String1 \/ FromString1 \/ String2 \/ FromString2 \/ Index \/ Proto \/ SBOM
-        \/ \E f \in Formats : Export(f)
+Next == \/ (stage \in {"start", "build"} /\ \E i \in 1..8 : i > last /\ \E x \in DimVals(i) : Deviate(i, x))
+        \/ Emit \/ ToPURL \/ String1 \/ FromString1 \/ String2 \/ FromString2 \/ Index \/ Proto \/ SBOM
+        \/ AddPkg \/ (\E k \in NoPurlKinds : AddNoPurl(k))
+        \/ (\E f \in Formats : Export(f))
         \/ WriteFile \/ Scan
 Spec == Init /\ [][Next]_vars
 
@@ -308,15 +339,15 @@ ExportIsFilter == (Mode = "inv" /\ stage # "build") =>
 (* ---- case emission (binding A) ---- *)
 PkgCase == [p |-> Purl(pkg), nameC |-> pkg.nameC, verC |-> pkg.verC, nsC |-> pkg.nsC, qualC |-> pkg.qualC, subC |-> pkg.subC,
             layer |-> pkg.layer, nloc |-> pkg.nloc, norm |-> Norm(pkg), spdx_exported |-> Exported(pkg, "spdx23-json")]
-InvPkg(p) == [carrier |-> "spdx", has_purl |-> HasPurl(p), p |-> Purl(p), name |-> Purl(p).name, version |-> Purl(p).version,
+InvPkg(p, i) == [carrier |-> IF i % 2 = 1 THEN "spdx" ELSE "cdx", has_purl |-> HasPurl(p), p |-> Purl(p), name |-> Purl(p).name, version |-> Purl(p).version,
               cpe |-> IF p.kind = "cpe" THEN "cpe:2.3:a:acme:libfoo:1.0:*:*:*:*:*:*:*" ELSE "",
               cls |-> [type |-> p.type, nameC |-> p.nameC, verC |-> p.verC, nsC |-> p.nsC, qualC |-> p.qualC, subC |-> p.subC, kind |-> p.kind]]
-InvCase == [format |-> fmt, pkgs |-> [i \in 1..Len(inv) |-> InvPkg(inv[i])], expect |-> ExpectedBack(inv, fmt)]
+InvCase == [format |-> fmt, pkgs |-> [i \in 1..Len(inv) |-> InvPkg(inv[i], i)], expect |-> ExpectedBack(inv, fmt)]
 EmitCase == /\ (TerminalPkg => PrintT(ToJson(PkgCase)))
             /\ (TerminalInv => PrintT(ToJson(InvCase)))
 \* the rule tables the orchestrator applies to concrete strings
 Rules == [lower_ns |-> LowerNsTypes, lower_name |-> LowerNameTypes, dash_name |-> DashNameTypes]
-EmitRules == (stage \in {"start", "build"} /\ inv = <<>>) => PrintT(ToJson([rules |-> Rules]))
+EmitRules == (stage \in {"start", "build"} /\ inv = <<>> /\ last = 0) => PrintT(ToJson([rules |-> Rules]))
 
 \* sanity (must be violated): "pkg": a terminal package whose normal form differs from its package URL;
 \* "inv": an inventory of which the document carries some but not all packages
